@@ -17,6 +17,8 @@ type Builder struct {
 	stack     []stackEntry      // DFS stack
 	matched   bool              // true if we've reached a match state in current closure
 	matchMask uint32            // slot mask accumulated to reach match state
+	atStart   bool              // true while building the state for position 0 (no byte consumed yet)
+	startLook bool              // true if the current closure followed a start-of-text/line assertion
 
 	// DFA state being built
 	numStates  int                     // number of DFA states created
@@ -34,6 +36,7 @@ type Builder struct {
 type stackEntry struct {
 	nfaID nfa.StateID
 	slots uint32 // slot mask accumulated along epsilon path
+	atEnd bool   // path passed an end-of-text assertion: only Match may follow
 }
 
 // Build attempts to build a one-pass DFA from the given NFA.
@@ -73,6 +76,7 @@ func Build(n *nfa.NFA) (*DFA, error) {
 
 	// Build DFA starting from anchored start state
 	startNFA := n.StartAnchored()
+	b.atStart = true
 	startDFA, err := b.buildState(startNFA)
 	if err != nil {
 		return nil, err
@@ -107,13 +111,18 @@ func Build(n *nfa.NFA) (*DFA, error) {
 // buildState builds a DFA state from the given NFA state's epsilon closure.
 // Returns the DFA state ID or error if not one-pass.
 func (b *Builder) buildState(nfaRoot nfa.StateID) (StateID, error) {
+	// Only the very first state is built for position 0; every state reached
+	// by a byte transition is at a position > 0.
+	atStart := b.atStart
+	b.atStart = false
+
 	// Check if already built
 	if sid, ok := b.nfaToDFA[nfaRoot]; ok {
 		return sid, nil
 	}
 
 	// Compute epsilon closure with one-pass checking
-	closure, isMatch, err := b.epsilonClosureOnePass(nfaRoot)
+	closure, isMatch, err := b.epsilonClosureOnePass(nfaRoot, atStart)
 	if err != nil {
 		return 0, err
 	}
@@ -132,7 +141,11 @@ func (b *Builder) buildState(nfaRoot nfa.StateID) (StateID, error) {
 	} else {
 		b.matchSlots = append(b.matchSlots, 0)
 	}
-	b.nfaToDFA[nfaRoot] = sid
+	// A start state whose closure relied on a start assertion is valid at
+	// position 0 only: a loop back to the same NFA state must build its own state.
+	if !b.startLook {
+		b.nfaToDFA[nfaRoot] = sid
+	}
 
 	// Allocate transition row (initialize to dead state)
 	startIdx := len(b.table)
@@ -158,10 +171,19 @@ type closureEntry struct {
 // epsilonClosureOnePass computes epsilon closure while checking one-pass property.
 // Returns (closure entries with slots, isMatch, error).
 // If isMatch is true, b.matchMask contains the slot mask to apply at match.
-func (b *Builder) epsilonClosureOnePass(root nfa.StateID) ([]closureEntry, bool, error) {
+//
+// Look assertions: Search is anchored at position 0 and reports a match only at
+// the end of the input, so only these can be decided at build time:
+//   - \A and (?m)^ hold at position 0 (atStart); \A never holds afterwards
+//   - \z holds only where no byte follows: the path may lead to Match, not to a byte
+//
+// Everything else ((?m)^ after position 0, (?m)$, \b, \B) depends on the
+// neighbouring bytes, which the DFA does not examine: such patterns are not one-pass.
+func (b *Builder) epsilonClosureOnePass(root nfa.StateID, atStart bool) ([]closureEntry, bool, error) {
 	b.seen.Clear()
 	b.matched = false
 	b.matchMask = 0
+	b.startLook = false
 	b.stack = b.stack[:0]
 
 	// Start DFS from root
@@ -178,14 +200,21 @@ func (b *Builder) epsilonClosureOnePass(root nfa.StateID) ([]closureEntry, bool,
 
 		nfaID := entry.nfaID
 		slots := entry.slots
-
-		// Save this entry with accumulated slots
-		closure = append(closure, closureEntry{nfaID, slots})
+		atEnd := entry.atEnd
+		base := len(b.stack)
 
 		state := b.nfa.State(nfaID)
 		if state == nil {
 			continue
 		}
+
+		// After an end-of-text assertion no byte can be consumed
+		if atEnd && (state.Kind() == nfa.StateByteRange || state.Kind() == nfa.StateSparse) {
+			continue
+		}
+
+		// Save this entry with accumulated slots
+		closure = append(closure, closureEntry{nfaID, slots})
 
 		switch state.Kind() {
 		case nfa.StateMatch:
@@ -234,9 +263,19 @@ func (b *Builder) epsilonClosureOnePass(root nfa.StateID) ([]closureEntry, bool,
 		case nfa.StateLook:
 			// Handle anchors (^, $, \A, \z) as epsilon transitions.
 			// For onepass DFA (which is always anchored at start):
-			// - Start anchors (^, \A): Always satisfied - follow epsilon
+			// - Start anchors (^, \A): satisfied at position 0 only
 			// - End anchors ($, \z): Follow epsilon; match checked at input end
-			_, next := state.Look()
+			look, next := state.Look()
+			switch {
+			case look == nfa.LookStartText && !atStart:
+				next = nfa.InvalidState // never holds after a byte was consumed
+			case look == nfa.LookStartText, look == nfa.LookStartLine && atStart:
+				b.startLook = true
+			case look == nfa.LookEndText:
+				atEnd = true
+			default:
+				return nil, false, ErrNotOnePass
+			}
 			if next != nfa.InvalidState {
 				if err := b.stackPush(next, slots); err != nil {
 					return nil, false, err
@@ -254,6 +293,13 @@ func (b *Builder) epsilonClosureOnePass(root nfa.StateID) ([]closureEntry, bool,
 				return nil, false, ErrNotOnePass
 			}
 		}
+
+		// States pushed by this entry inherit its end-of-text restriction
+		if atEnd {
+			for i := base; i < len(b.stack); i++ {
+				b.stack[i].atEnd = true
+			}
+		}
 	}
 
 	return closure, b.matched, nil
@@ -269,7 +315,7 @@ func (b *Builder) stackPush(nfaID nfa.StateID, slots uint32) error {
 	}
 
 	b.seen.Insert(uint32(nfaID))
-	b.stack = append(b.stack, stackEntry{nfaID, slots})
+	b.stack = append(b.stack, stackEntry{nfaID: nfaID, slots: slots})
 	return nil
 }
 
